@@ -164,7 +164,14 @@ func nativeBatch(id, pkg string, items []nativeItem) ([]nativeResult, string, er
 			hang = r.Hang
 		}
 		if n == 0 {
-			return nil, log.String(), fmt.Errorf("native playback: no results\n%s", out)
+			if runErr == nil {
+				return nil, log.String(), fmt.Errorf("native playback: no results\n%s", out)
+			}
+			// the process died while playing back the first item (e.g. a panic in a goroutine
+			// that is not the harness's): that item's outcome is the death of the process
+			results[start] = nativeResult{Index: start, Panic: "process died: " + lastLines(string(out), 30)}
+			start++
+			continue
 		}
 		if n < len(batch) && !hang {
 			// the process died (crash in a non-harness goroutine, os.Exit, ...): attribute to the next item
